@@ -268,20 +268,20 @@ fn is_identity_acceptable(items: &'_ [QualityItem<Preference<Encoding>>]) -> boo
         return true;
     }
 
-    // Loop algorithm depends on items being sorted in descending order of quality. As such, it
-    // is sufficient to return (q > 0) when reaching either an "identity" or "*" item.
-    for q in items {
-        match (q.quality, &q.item) {
-            // occurrence of "identity;q=n"; return true if quality is non-zero
-            (q, Preference::Specific(Encoding::Known(ContentEncoding::Identity))) => {
-                return q > Quality::ZERO
-            }
+    // An explicit "identity;q=n" entry decides, whatever its position: it is more specific than a
+    // "*" entry, even one with a higher quality.
+    if let Some(q) = items.iter().find(|q| {
+        matches!(
+            q.item,
+            Preference::Specific(Encoding::Known(ContentEncoding::Identity))
+        )
+    }) {
+        return q.quality > Quality::ZERO;
+    }
 
-            // occurrence of "*;q=n"; return true if quality is non-zero
-            (q, Preference::Any) => return q > Quality::ZERO,
-
-            _ => {}
-        }
+    // otherwise a "*;q=n" entry decides
+    if let Some(q) = items.iter().find(|q| matches!(q.item, Preference::Any)) {
+        return q.quality > Quality::ZERO;
     }
 
     // implicit acceptable identity
